@@ -17,6 +17,7 @@ func init() {
 		Rules: map[string]string{
 			"R1": "closed writer set and value shapes of TableState.CurrentActionEndAt; extension returns the stored value; no address escape",
 			"R2": "clear wiring: hook registered before Start; hand stores it; round-closed handler invokes it before Next; continue step resets to 0 on every path",
+			"R4": "the engine's hand-state hook (registered before Start) calls the deadline updater with each state and its event, for every event but game-closed",
 			"R3": "turn predicate atoms: the turn deadline is stored only under status playing ∧ round-started event ∧ betting round ∧ the current player has allowed actions ∧ has not acted (pokerface's Acted flag)",
 		},
 		Assumptions: []string{"time.Now/Add/Unix semantics"},
@@ -41,6 +42,8 @@ func secondsOf(s *Sym) *Sym {
 
 func checkC15(c *Ctx) {
 	p := c.P
+	// R4: the deadline updater is driven by every hand state the engine receives
+	checkUpdateHook(c, "R4", "register", "deadline")
 	n := 0
 	shapes := map[string]int{}
 	for _, ss := range p.FieldStores("TableState", "CurrentActionEndAt") {
